@@ -131,6 +131,7 @@ type World struct {
 	orc      *oracle
 
 	failNextMirrorCommit bool
+	failUploadAt         int // auto mode: the n-th upload from now fails (0 = none)
 	shadow     *incarnation // a second live witness process (C14)
 	shadowUsed bool
 	reqOfOp  map[string]*request
@@ -171,6 +172,17 @@ func (w *World) seam(inc *incarnation, ctx context.Context, kind, key string, mu
 			w.failNextMirrorCommit = false
 			w.sim.Probe("script.commit-failed")
 			return opResult{err: fmt.Errorf("%w (scripted lreplace)", errInjected)}
+		}
+		if kind == "up" && w.failUploadAt > 0 {
+			w.failUploadAt--
+			if w.failUploadAt == 0 {
+				// scripted fault: this upload fails without effect
+				w.sim.Probe("script.upload-failed")
+				if w.curReq != nil {
+					w.curReq.faulted = true
+				}
+				return opResult{err: fmt.Errorf("%w (scripted upload %s)", errInjected, key)}
+			}
 		}
 		w.smu.Lock()
 		w.apply(inc, kind, key, p, true)
